@@ -1,0 +1,47 @@
+package baseorbitdb
+
+import (
+	"fmt"
+
+	ipfslog "berty.tech/go-ipfs-log"
+	"berty.tech/go-ipfs-log/identityprovider"
+	logiface "berty.tech/go-ipfs-log/iface"
+	cid "github.com/ipfs/go-cid"
+	format "github.com/ipfs/go-ipld-format"
+)
+
+// safeDecodeIO makes the decoding of a fetched block fail instead of panicking:
+// the block behind a link is whatever its author wanted it to be (an entry
+// without clock, an identity without signatures...)
+func safeDecodeIO(io ipfslog.IO) ipfslog.IO {
+	if _, ok := io.(*recoveringIO); ok {
+		return io
+	}
+
+	if ps, ok := io.(logiface.IOPreSign); ok {
+		return &recoveringPreSignIO{recoveringIO{io}, ps}
+	}
+
+	return &recoveringIO{io}
+}
+
+type recoveringIO struct{ ipfslog.IO }
+
+func (r *recoveringIO) DecodeRawEntry(node format.Node, hash cid.Cid, p identityprovider.Interface) (e logiface.IPFSLogEntry, err error) {
+	defer func() {
+		if rec := recover(); rec != nil {
+			e, err = nil, fmt.Errorf("malformed entry block %s: %v", hash, rec)
+		}
+	}()
+
+	return r.IO.DecodeRawEntry(node, hash, p)
+}
+
+type recoveringPreSignIO struct {
+	recoveringIO
+	ps logiface.IOPreSign
+}
+
+func (r *recoveringPreSignIO) PreSign(e logiface.IPFSLogEntry) (logiface.IPFSLogEntry, error) {
+	return r.ps.PreSign(e)
+}
